@@ -27,10 +27,10 @@ func (c Cred) String() string {
 
 // error-returning checks: nil error = success
 var errChecks = map[string]string{
-	fnHashCompare: "password",
-	fnBcryptCmp:   "bcrypt",
-	fnUseRemember: "remember",
-	fnCreate:      "register",
+	fnHashCompare:  "password",
+	fnBcryptCmp:    "bcrypt",
+	fnUseRemember:  "remember",
+	fnCreate:       "register",
 	fnExchangerVar: "oauth2",
 	fnExchange:     "oauth2",
 }
